@@ -310,6 +310,16 @@ fn misc() -> (usize, Vec<Value>) {
                        "len {}: items {:?}, destroyed while C advanced {:x?}, destroyed in total {:x?}", len, got, during, after);
             }
         }
+        // an iterator built by C from the published layout, consumed in Rust: every non-zero status ends it - whatever its
+        // low byte is - and the slot of a refused advance is never read
+        for status in [1i32, -1, 2, 255, 0x100, 0x10000, -256, i32::MIN] {
+            let items: Vec<u64> = vec![11, 22, 33];
+            let mut st = cview::CvArrState { items: items.as_ptr(), n: items.len(), pos: 0, end_status: status, calls_after_end: 0 };
+            let mut it = std::mem::MaybeUninit::<CIterator<u64>>::uninit();
+            cview::cv_arr_iter(it.as_mut_ptr() as *mut c_void, &mut st);
+            let got: Vec<u64> = it.assume_init().take(50).collect();
+            check!("iterator made by C", got == items && st.calls_after_end == 1, "end status {:#x}: Rust saw {:?} and asked {} times after the end", status, got, st.calls_after_end);
+        }
         // tags
         let some: COption<u64> = Some(77u64).into(); let none: COption<u64> = None.into();
         check!("option tags", cview::cv_opt_tag(vp(&some)) == 1 && cview::cv_opt_value(vp(&some)) == 77 && cview::cv_opt_tag(vp(&none)) == 0, "Some tag {} None tag {}", cview::cv_opt_tag(vp(&some)), cview::cv_opt_tag(vp(&none)));
